@@ -106,6 +106,39 @@ pub fn subs() -> Vec<Box<dyn AnySub>> {
                 Ok(())
             },
         }),
+        // N different scopes one after the other, then all of them again (forwards, backwards, interleaved): whatever a
+        // bounded cache evicted must be derived afresh, not looked up where something else lives now
+        Box::new(EnumSub {
+            name: "many-scopes-then-back",
+            exhaustive: true,
+            list: |t| {
+                let mut v = vec![3u32, 17, 31, 32, 33, 65, 129, 257];
+                if t == Tier::Thorough {
+                    v.extend([1_025, 4_097, 65_537]);
+                }
+                v
+            },
+            check: |n, cc| {
+                let scope = |i: u32| Derive {
+                    trace: false,
+                    secret: format!("secret-{}", i % 3),
+                    y: 2015,
+                    m: 8,
+                    d: 1 + i % 28,
+                    region: crate::gen::REGIONS[i as usize % crate::gen::REGIONS.len()].to_string(),
+                    service: format!("svc{}", i),
+                };
+                let mut scratch = CaseCtx::default();
+                let order: Vec<u32> = (0..*n).chain(0..*n).chain((0..*n).rev()).chain((0..*n).map(|i| (i * 7) % *n)).collect();
+                for (k, i) in order.iter().enumerate() {
+                    check_derive(&scope(*i), &mut scratch).map_err(|f| Failure::new(&format!("{}:many-scopes", f.sig), format!("{} -- scope {} of {}, visit {} of a walk over all scopes and back", f.msg, i, n, k + 1)))?;
+                }
+                cc.class("many-scopes");
+                cc.nontrivial(digest_of(&[&n.to_le_bytes(), b"scopes"]));
+                cc.sample(json!({"scopes": n, "derivations": order.len()}));
+                Ok(())
+            },
+        }),
         // the same operations while a logger renders every record down to trace level
         Box::new(EnumSub {
             name: "capacity-with-trace-logging",
